@@ -5,8 +5,8 @@ import Mercure.Model.Basic
   Times are milliseconds since the connection was accepted (t0 = 0); 0 for a timeout = disabled.
 
   Same-instant races (two timers, or a timer and an arrival, due at the same millisecond) are
-  resolved by Go's `select` at random; the model fixes the order disconnection < heartbeat <
-  arrival, and the correspondence generator avoids such ties (DESIGN §5.1, acceptor note).
+  resolved by Go's `select` at random: the model takes the resolution as a parameter (`ch`), the
+  theorems hold for every resolution, and the correspondence accepts any of them (`runAll`).
 -/
 namespace Mercure.Timed
 
@@ -63,26 +63,96 @@ def init (c : Cfg) : St :=
 
 def optLe (a : Option Nat) (t : Nat) : Bool := match a with | some x => x ≤ t | none => false
 
+/-! ### `select` among the cases that are ready
+
+  At the instant `t` (the earliest instant at which anything is due) several cases of the `select` in
+  `SubscribeHandler` can be ready at once: the request context, the disconnection timer, the heartbeat
+  timer, the subscriber's channel. Go picks one of the ready cases at random. The model takes that
+  choice as a parameter: a list of numbers `ch`, one consumed per iteration, indexing (modulo) into the
+  list of ready cases in the order close, disconnection, heartbeat, arrival. With `ch = []` every choice
+  is 0: the first ready case in that order (the fixed order of the earlier version of this model).
+
+  Go ≥ 1.23 timer semantics (go.mod's language version): a tick that has not been received yet is
+  discarded by `Stop`, which then returns true — so an arrival chosen while the heartbeat tick is also
+  ready simply re-arms the timer (`hbDue := t + hb`), exactly what `St.write … rearm` does. -/
+
+inductive Kind where
+  | close | disc | hb | arr
+  deriving DecidableEq, Repr
+
+def arrReady (arr : List (Nat × Nat)) (t : Nat) : Bool :=
+  match arr with
+  | (ta, _) :: _ => ta ≤ t
+  | [] => false
+
+def ready (close : Option Nat) (s : St) (arr : List (Nat × Nat)) (t : Nat) : List Kind :=
+  (if optLe close t then [Kind.close] else []) ++ (if optLe s.discDue t then [Kind.disc] else []) ++
+  (if optLe s.hbDue t then [Kind.hb] else []) ++ (if arrReady arr t then [Kind.arr] else [])
+
+def pick (ks : List Kind) (n : Nat) : Option Kind :=
+  if ks.length = 0 then none else ks[n % ks.length]?
+
+/-- The earliest instant at which something is due. -/
+def nextInstant (close : Option Nat) (s : St) (arr : List (Nat × Nat)) : Option Nat :=
+  (s.discDue.toList ++ s.hbDue.toList ++ (arr.head?.map (·.1)).toList ++ close.toList).foldl
+    (fun m x => match m with | none => some x | some y => some (min x y)) (none : Option Nat)
+
+/-- What choosing the ready case `k` at instant `t` does: `none` = the handler has returned (final state),
+    `some (s', arr')` = the loop goes on. -/
+def fire (c : Cfg) (s : St) (arr : List (Nat × Nat)) (t : Nat) : Kind → St × Option (List (Nat × Nat))
+  | .close => ({ s with trace := (t, .clientClose) :: s.trace, done := true }, none)
+  | .disc => ({ s with trace := (t, .selfClose) :: s.trace, done := true }, none)
+  | .hb => (s.write c t .comment true, some arr)
+  | .arr => match arr with
+    | (_, id) :: rest => (s.write c t (.event id) true, some rest)
+    | [] => (s, none)
+
 /-- Run the loop against arrivals (time, id) in non-decreasing time order, an optional client close
-    time, up to `horizon`. `fuel` bounds the number of loop iterations. -/
-def loop (c : Cfg) (close : Option Nat) (horizon : Nat) : Nat → St → List (Nat × Nat) → St
-  | 0, s, _ => s
-  | fuel + 1, s, arr =>
+    time, up to `horizon`, under the choices `ch`. `fuel` bounds the number of loop iterations. -/
+def loop (c : Cfg) (close : Option Nat) (horizon : Nat) : Nat → St → List (Nat × Nat) → List Nat → St
+  | 0, s, _, _ => s
+  | fuel + 1, s, arr, ch =>
     if s.done then s else
-    -- the next instant at which something is due
-    let cands : List Nat := (s.discDue.toList ++ s.hbDue.toList ++ (arr.head?.map (·.1)).toList ++ close.toList)
-    match cands.foldl (fun m x => match m with | none => some x | some y => some (min x y)) (none : Option Nat) with
+    match nextInstant close s arr with
     | none => s
     | some t =>
       if t > horizon then s
-      else if optLe close t then { s with trace := (t, .clientClose) :: s.trace, done := true }
-      else if optLe s.discDue t then { s with trace := (t, .selfClose) :: s.trace, done := true }
-      else if optLe s.hbDue t then loop c close horizon fuel (s.write c t .comment true) arr
-      else match arr with
-        | (_, id) :: rest => loop c close horizon fuel (s.write c t (.event id) true) rest
-        | [] => s
+      else match pick (ready close s arr t) (ch.headD 0) with
+        | none => s
+        | some k =>
+          match fire c s arr t k with
+          | (s', none) => s'
+          | (s', some arr') => loop c close horizon fuel s' arr' ch.tail
 
+def fuelFor (c : Cfg) (arr : List (Nat × Nat)) (horizon : Nat) : Nat :=
+  arr.length + (if c.hb != 0 then horizon / c.hb else 0) + 4
+
+/-- The trace under the choices `ch`. -/
+def runCh (c : Cfg) (arr : List (Nat × Nat)) (close : Option Nat) (horizon : Nat) (ch : List Nat) : List (Nat × Ev) :=
+  (loop c close horizon (fuelFor c arr horizon) (init c) arr ch).trace.reverse
+
+/-- The trace when every tie is resolved in the order close < disconnection < heartbeat < arrival. -/
 def run (c : Cfg) (arr : List (Nat × Nat)) (close : Option Nat) (horizon : Nat) : List (Nat × Ev) :=
-  (loop c close horizon (arr.length + (if c.hb != 0 then horizon / c.hb else 0) + 4) (init c) arr).trace.reverse
+  runCh c arr close horizon []
+
+/-- Every final state reachable under some resolution of the ties (branches only where ≥ 2 cases are ready). -/
+def loopAll (c : Cfg) (close : Option Nat) (horizon : Nat) : Nat → St → List (Nat × Nat) → List St
+  | 0, s, _ => [s]
+  | fuel + 1, s, arr =>
+    if s.done then [s] else
+    match nextInstant close s arr with
+    | none => [s]
+    | some t =>
+      if t > horizon then [s]
+      else match ready close s arr t with
+        | [] => [s]
+        | ks => ks.flatMap fun k =>
+          match fire c s arr t k with
+          | (s', none) => [s']
+          | (s', some arr') => loopAll c close horizon fuel s' arr'
+
+/-- All traces the handler can produce, one per resolution of the ties (the acceptor of the correspondence). -/
+def runAll (c : Cfg) (arr : List (Nat × Nat)) (close : Option Nat) (horizon : Nat) : List (List (Nat × Ev)) :=
+  (loopAll c close horizon (fuelFor c arr horizon) (init c) arr).map (·.trace.reverse)
 
 end Mercure.Timed
